@@ -14,15 +14,15 @@ import (
 // C06: typed attributes round-trip and use the RFC wire formats.
 
 type c06Case struct {
-	Kind   string `json:"kind"` // xor | mapped | text | errcode | unknown
-	Attr   uint16 `json:"attr"` // attribute type (xor: AddToAs type; mapped: which of the 4; text: which)
-	IP     []byte `json:"ip,omitempty"`
-	Port   int    `json:"port,omitempty"`
-	TID    []byte `json:"tid,omitempty"`
-	Len    int    `json:"len,omitempty"`
-	Code   int    `json:"code,omitempty"`
+	Kind   string   `json:"kind"` // xor | mapped | text | errcode | unknown
+	Attr   uint16   `json:"attr"` // attribute type (xor: AddToAs type; mapped: which of the 4; text: which)
+	IP     []byte   `json:"ip,omitempty"`
+	Port   int      `json:"port,omitempty"`
+	TID    []byte   `json:"tid,omitempty"`
+	Len    int      `json:"len,omitempty"`
+	Code   int      `json:"code,omitempty"`
 	Types  []uint16 `json:"types,omitempty"`
-	Filler byte   `json:"filler,omitempty"`
+	Filler byte     `json:"filler,omitempty"`
 }
 
 func tid12(b []byte) (t [12]byte) { copy(t[:], b); return }
